@@ -8,10 +8,12 @@ Open Scope Z_scope.
 Section Ind.
   Variable P : enode -> Prop.
   Hypothesis HL : forall v e s, P (ELeaf v e s).
+  Hypothesis HQ : forall m vs ds e, P (EQty m vs ds e).
   Hypothesis HD : forall c, Forall (fun kx => P (snd kx)) c -> P (EDir c).
   Fixpoint enode_ind' (n : enode) : P n :=
     match n with
     | ELeaf v e s => HL v e s
+    | EQty m vs ds e => HQ m vs ds e
     | EDir c => HD c ((fix go (l : list (key * enode)) : Forall (fun kx => P (snd kx)) l :=
                          match l with
                          | [] => Forall_nil _
@@ -56,7 +58,7 @@ Qed.
 Theorem set_emit_leaves b n : forall pre,
   eleaves (set_emit b n) pre = map (fun pl => (fst pl, (fst (fst (snd pl)), b, snd (snd pl)))) (eleaves n pre).
 Proof.
-  induction n as [v e s|c IH] using enode_ind'; intros pre; [reflexivity|].
+  induction n as [v e s|m vs ds e|c IH] using enode_ind'; intros pre; [reflexivity|reflexivity|].
   cbn [set_emit eleaves]. induction c as [|[k x] r IHr]; [reflexivity|].
   inversion IH as [|? ? Hx Hr]; subst. cbn [snd] in Hx.
   rewrite map_app. rewrite <- Hx. f_equal. apply IHr. exact Hr.
@@ -88,7 +90,24 @@ Proof. destruct e; reflexivity. Qed.
 Theorem silent_leaf_row v s : emit_data (set_emit false (ELeaf v true s)) = None.
 Proof. reflexivity. Qed.
 
+(* units: an emitted quantity is the stored quantity expressed in the DECLARED unit (whatever unit the value
+   was supplied in), exactly when the conversion is exact *)
+Theorem emit_units m vs ds q : ds <> 0 -> (ds | m * vs) ->
+  emit_data (EQty m vs ds true) = Some (Lf q) -> q * ds = m * vs.
+Proof.
+  intros Hds [k Hk] H. cbn in H. inversion H; subst q. unfold to_units. rewrite Hk.
+  rewrite Z.div_mul by exact Hds. reflexivity.
+Qed.
+(* in particular the unit the value was supplied in does not matter: equal quantities give equal rows *)
+Theorem emit_units_same_quantity m1 vs1 m2 vs2 ds e : m1 * vs1 = m2 * vs2 ->
+  emit_data (EQty m1 vs1 ds e) = emit_data (EQty m2 vs2 ds e).
+Proof. intros H. cbn. unfold to_units. now rewrite H. Qed.
+Theorem unflagged_quantity_not_emitted m vs ds : emit_data (EQty m vs ds false) = None.
+Proof. reflexivity. Qed.
+
 Print Assumptions emit_leaf.
+Print Assumptions emit_units.
+Print Assumptions emit_units_same_quantity.
 Print Assumptions emit_children_lookup.
 Print Assumptions set_emit_leaves.
 Print Assumptions set_emit_true_emits_all.
